@@ -144,6 +144,22 @@ Proof.
   destruct (nth_error pools pi) eqn:N; [|reflexivity]. apply nth_error_None in L. congruence.
 Qed.
 
+Lemma add_groups_inv : forall cs es w, cb_inv w -> cb_range w ->
+  cb_inv (fst (add_groups w cs es)) /\ cb_range (fst (add_groups w cs es)).
+Proof.
+  induction cs as [|c r IH]; intros es w I R; simpl; [auto|].
+  destruct (cb_inv_add w c (hd 0 es) I R) as [I1 R1].
+  destruct (add_group w c (hd 0 es)) as [w1 o1]. simpl in I1, R1.
+  specialize (IH (tl es) w1 I1 R1). destruct (add_groups w1 r (tl es)) as [w2 o2]. exact IH.
+Qed.
+
+(* a new daemon life starts from an empty subscription table *)
+Lemma restart_clears w pi : subscribed (clear_callbacks w) pi = false.
+Proof. reflexivity. Qed.
+
+Lemma cb_inv_clear w : cb_inv (clear_callbacks w) /\ cb_range (clear_callbacks w).
+Proof. split; [intros pi; left; reflexivity | intros pi _; reflexivity]. Qed.
+
 Section Histories.
 Variable h : handler.
 Variable maxdig : Z.
@@ -153,10 +169,11 @@ Lemma grun_inv : forall gs w, cb_inv w -> cb_range w ->
 Proof.
   induction gs as [|g r IH]; intros w I R; simpl; [auto|].
   assert (S : cb_inv (fst (gstep h maxdig w g)) /\ cb_range (fst (gstep h maxdig w g))).
-  { destruct g as [op|pi e1|c e1]; simpl.
+  { destruct g as [op|pi e1|c e1|cs es]; simpl.
     - pose proof (wstep_prims h maxdig w op) as P. split; [eapply cb_inv_prims | eapply cb_range_prims]; eassumption.
     - split; [apply cb_inv_remove | apply cb_range_remove]; assumption.
-    - apply cb_inv_add; assumption. }
+    - apply cb_inv_add; assumption.
+    - destruct (cb_inv_clear w). apply add_groups_inv; assumption. }
   destruct (gstep h maxdig w g) as [w1 o1]. simpl in S. destruct S as [I1 R1].
   specialize (IH w1 I1 R1). destruct (grun h maxdig w1 r) as [w2 o2]. exact IH.
 Qed.
